@@ -298,8 +298,29 @@ func checkMulti(w *World, rep *vh.Report, fl files, idx int, mc MultiCase) {
 	if mc.Variant != nil {
 		idx = *mc.Variant
 	}
-	msg := w.MaterializeMulti(mc.M, idx)
-	replay := map[string]any{"kind": "multi", "case": mc, "variant": idx}
+	// one concrete naming per case, every naming for the cases the specification accepts
+	sps := []int{idx % NumSpellings()}
+	if mc.Spelling != nil {
+		sps = []int{*mc.Spelling}
+	} else if mc.Valid {
+		sps = sps[:0]
+		for i := 0; i < NumSpellings(); i++ {
+			sps = append(sps, i)
+		}
+	}
+	for _, sp := range sps {
+		checkMultiSpelled(w, rep, fl, idx, sp, mc)
+	}
+	key := "multi:" + strings.Join(mc.Failed, "+")
+	if !mc.M.BPresent || !mc.M.LPresent {
+		key += fmt.Sprintf(":absent:%v/%v", mc.M.BPresent, mc.M.LPresent)
+	}
+	rep.Eval(key)
+}
+
+func checkMultiSpelled(w *World, rep *vh.Report, fl files, idx, sp int, mc MultiCase) {
+	msg := w.MaterializeMulti(mc.M, idx, sp)
+	replay := map[string]any{"kind": "multi", "case": mc, "variant": idx, "spelling": sp}
 	sus := suspectMulti(mc.M)
 	var err error
 	var bm ctfe.LogBackendMap
@@ -329,11 +350,6 @@ func checkMulti(w *World, rep *vh.Report, fl files, idx int, mc MultiCase) {
 			verdict(rep, "ValidateLogMultiConfig", form, mc.Valid, err, mc.Failed, replay)
 		}
 	}
-	key := "multi:" + strings.Join(mc.Failed, "+")
-	if !mc.M.BPresent || !mc.M.LPresent {
-		key += fmt.Sprintf(":absent:%v/%v", mc.M.BPresent, mc.M.LPresent)
-	}
-	rep.Eval(key)
 }
 
 // ------------------------------------------------------------------ the instance
